@@ -3,7 +3,7 @@ from __future__ import annotations
 
 import ast
 
-from ..core import AnalysisError, call_name, dotted, is_name, unparse, walk_no_nested
+from ..core import UnknownAtom, AnalysisError, call_name, dotted, is_name, unparse, walk_no_nested
 from ..interp import Interp, subst
 from ..table import describe, explore
 from . import srtable
@@ -222,22 +222,24 @@ def rule_meta_map(rep):
             "<int>": ("priority", "META"),
         }
         written_keys = set()
-        for w in words:
-            def atom(e, it, w=w):
-                if isinstance(e, ast.Compare) and len(e.ops) == 1 and is_name(e.left, "META"):
-                    op, rhs = e.ops[0], e.comparators[0]
-                    if isinstance(op, ast.In) and isinstance(rhs, (ast.List, ast.Tuple, ast.Set)):
-                        return w in [getattr(x, "value", None) for x in rhs.elts]
-                    if isinstance(op, ast.Eq) and isinstance(rhs, ast.Constant):
-                        return w == rhs.value
-                if isinstance(e, ast.Call) and is_name(e.func, "isinstance") and is_name(e.args[0], "META"):
-                    t = unparse(e.args[1])
-                    if t == "int":
-                        return w == "<int>"
-                    if t == "list":
-                        return w == "<user>"
-                raise AnalysisError(f"unknown meta-data test: {unparse(e)}")
 
+        def classify(e, it):
+            if isinstance(e, ast.Compare) and len(e.ops) == 1 and is_name(e.left, "META"):
+                op, rhs = e.ops[0], e.comparators[0]
+                if isinstance(op, ast.In) and isinstance(rhs, (ast.List, ast.Tuple, ast.Set)):
+                    vals = [getattr(x, "value", None) for x in rhs.elts]
+                    return lambda v: v["w"] in vals
+                if isinstance(op, ast.Eq) and isinstance(rhs, ast.Constant):
+                    return lambda v: v["w"] == rhs.value
+            if isinstance(e, ast.Call) and is_name(e.func, "isinstance") and is_name(e.args[0], "META"):
+                t = unparse(e.args[1])
+                if t == "int":
+                    return lambda v: v["w"] == "<int>"
+                if t == "list":
+                    return lambda v: v["w"] == "<user>"
+            raise UnknownAtom(f"unknown meta-data test: {unparse(e)}")
+
+        def run(atom):
             def eff(st, it):
                 if isinstance(st, ast.Assign) and isinstance(st.targets[0], ast.Subscript):
                     t = st.targets[0]
@@ -248,23 +250,32 @@ def rule_meta_map(rep):
 
             it = Interp(atom, eff, env={var: N("META")}, assert_is_effect=False)
             it.run(loop.body)
-            sets = [e for e in it.effects if e[0] == "SET"]
+            return list(it.effects)
+
+        seen_words = set()
+        for leaf in explore(run, [dict(w=w) for w in words], classify):
+            effects = leaf.result
+            sets = [e for e in effects if e[0] == "SET"]
             written_keys |= {e[1] for e in sets}
-            if w == "<user>":
-                ok = any(e[0] == "SETUSER" and "user_meta" in e[1] for e in it.effects) and not sets
-                r.check(ok, "user meta-data stored under user_meta", "meta:<user>",
-                        f"user meta-data effects {it.effects}", node=loop)
-                continue
-            exp = expected[w]
-            got = [(e[1], e[2]) for e in sets]
-            r.check(
-                got == [exp],
-                f"meta-data word {w!r} -> {exp[0]} = {exp[1]}",
-                f"meta:{w}",
-                f"meta-data word {w!r} sets {got}, documented {[exp]}",
-                node=loop,
-                detail={"word": w, "effects": got},
-            )
+            for v in leaf.valuations:
+                w = v["w"]
+                seen_words.add(w)
+                if w == "<user>":
+                    ok = any(e[0] == "SETUSER" and "user_meta" in e[1] for e in effects) and not sets
+                    r.check(ok, "user meta-data stored under user_meta", "meta:<user>",
+                            f"user meta-data effects {effects}" + leaf.free_text(), node=loop)
+                    continue
+                exp = expected[w]
+                got = [(e[1], e[2]) for e in sets]
+                r.check(
+                    got == [exp],
+                    f"meta-data word {w!r} -> {exp[0]} = {exp[1]}",
+                    f"meta:{w}",
+                    f"meta-data word {w!r} sets {got}, documented {[exp]}" + leaf.free_text(),
+                    node=loop,
+                    detail={"word": w, "effects": got},
+                )
+        r.need(seen_words == set(words), "meta-data words not all explored")
         # reader side
         g = repo.func("parglare.grammar._create_prods")
         reads = {}
@@ -366,3 +377,6 @@ def check(rep):
     rule_shift_prior(rep)
     rule_meta_map(rep)
     rule_production_fields(rep)
+    from .C13 import rule_groups
+
+    rule_groups(rep)  # a group's helper rule inherits the rule-level priority/associativity
